@@ -14,7 +14,7 @@ Fixpoint msorted (m : file -> N) (l : list file) : Prop :=
 Lemma insert_by_perm m x l : Permutation (x :: l) (insert_by m x l).
 Proof.
   induction l as [|y r IH]; cbn; [reflexivity|].
-  destruct (m y <=? m x); [|reflexivity]. rewrite perm_swap. now constructor.
+  destruct (m y <? m x); [|reflexivity]. rewrite perm_swap. now constructor.
 Qed.
 
 Lemma isort_by_perm m l : Permutation l (isort_by m l).
@@ -23,10 +23,10 @@ Proof. induction l as [|x r IH]; cbn; [constructor|]. rewrite <- insert_by_perm.
 Lemma insert_by_msorted m x l : msorted m l -> msorted m (insert_by m x l).
 Proof.
   induction l as [|y r IH]; cbn [insert_by msorted]; intros Hs; [split; [intros ? []|exact I]|].
-  destruct Hs as [Hy Hr]. destruct (N.leb_spec (m y) (m x)) as [Hle|Hgt]; cbn [msorted].
+  destruct Hs as [Hy Hr]. destruct (N.ltb_spec (m y) (m x)) as [Hlt|Hge]; cbn [msorted].
   - split; [|now apply IH]. intros z Hz.
     apply (Permutation_in _ (Permutation_sym (insert_by_perm m x r))) in Hz.
-    destruct Hz as [<-|Hz]; [exact Hle|now apply Hy].
+    destruct Hz as [<-|Hz]; [lia|now apply Hy].
   - split; [|split; assumption]. intros z [<-|Hz]; [lia|]. specialize (Hy z Hz). lia.
 Qed.
 
@@ -38,16 +38,16 @@ Lemma filter_insert_by m (p : file -> bool) x l : msorted m l ->
 Proof.
   induction l as [|y r IH]; cbn [insert_by filter msorted]; intros Hs.
   - cbn. now destruct (p x).
-  - destruct Hs as [Hy Hr]. destruct (N.leb_spec (m y) (m x)) as [Hle|Hgt].
+  - destruct Hs as [Hy Hr]. destruct (N.ltb_spec (m y) (m x)) as [Hlt|Hge].
     + cbn [filter]. rewrite (IH Hr). destruct (p y) eqn:Py; destruct (p x) eqn:Px; cbn [insert_by]; try reflexivity.
-      destruct (N.leb_spec (m y) (m x)); [reflexivity|lia].
+      destruct (N.ltb_spec (m y) (m x)); [reflexivity|lia].
     + cbn [filter]. destruct (p x) eqn:Px; [|reflexivity].
       destruct (p y) eqn:Py; cbn [insert_by].
-      * destruct (N.leb_spec (m y) (m x)); [lia|reflexivity].
-      * (* x goes in front of the filtered tail: every element there is >= m y > m x *)
-        assert (H : forall l', (forall z, In z l' -> m x < m z) -> insert_by m x l' = x :: l').
+      * destruct (N.ltb_spec (m y) (m x)); [lia|reflexivity].
+      * (* x goes in front of the filtered tail: every element there is >= m y >= m x *)
+        assert (H : forall l', (forall z, In z l' -> m x <= m z) -> insert_by m x l' = x :: l').
         { intros [|z l'] Hz; cbn; [reflexivity|].
-          destruct (N.leb_spec (m z) (m x)) as [Hc|]; [|reflexivity].
+          destruct (N.ltb_spec (m z) (m x)) as [Hc|]; [|reflexivity].
           specialize (Hz z (or_introl eq_refl)). lia. }
         symmetry. apply H. intros z Hz. apply filter_In in Hz. destruct Hz as [Hz _].
         specialize (Hy z Hz). lia.
